@@ -28,14 +28,17 @@ FLOORS = {"nontrivial": 0.12, "relaxed": 0.3, "ref-followed": 0.2}
 @st.composite
 def cases(draw):
     with_or = draw(st.integers(0, 2)) == 0
-    g = draw(gg.consistent(multi_typed_ranges=with_or and draw(st.booleans())))
+    mtr = with_or and draw(st.booleans())
+    g = draw(gg.consistent(multi_typed_ranges=mtr))
     cfg = {"keep_less_specific": True, "all_instances_are_compliant_mode": True, "instances_report_mode": "mixed"}
     for name in ("allow_opt_cardinality", "disable_exact_cardinality", "discard_useless_constraints_with_positive_closure", "inverse_paths"):
         cfg[name] = draw(st.booleans())
     if with_or:
         cfg["disable_or_statements"] = False        # disjunctions ('p @:A OR @:B') instead of one merged constraint
         cfg["allow_redundant_or"] = draw(st.booleans())
-    target = draw(common.target_spec(g, p_all=0.6))
+    # (with multi-typed ranges every class is a target: a neighbour typed only by a non-target class would count as untyped
+    # next to one that has a shape - kinds mixed on one property, outside the strict domain)
+    target = {"mode": "all"} if mtr else draw(common.target_spec(g, p_all=0.6))
     return {"g": g, "cfg": cfg, "target": target, "thr": 0}
 
 
